@@ -86,6 +86,10 @@ type RV struct {
 	MapOf *MapObj
 }
 
+// Native: an immutable value of a standard-library type kept as the real Go value
+// (time.Time); methods on it run natively when every argument is concrete.
+type Native struct{ V interface{} }
+
 // reflect.Type model (stored inside an Iface whose T is *reflect.rtype)
 type RT struct{ T types.Type }
 
